@@ -434,27 +434,25 @@ func vDeadAddresses(t *testing.T) (map[string]string, func()) {
 	}
 	if lis, err := net.Listen("tcp", "127.0.0.1:0"); err == nil {
 		out["silent"] = lis.Addr().String()
-		var mu sync.Mutex
-		conns := make([]net.Conn, 0)
 		go func() {
 			for {
 				c, err := lis.Accept()
 				if err != nil {
 					return
 				}
-				mu.Lock()
-				conns = append(conns, c)
-				mu.Unlock()
+				// swallow whatever the peer sends, never answer; the connection goes away when the peer gives up
+				go func(c net.Conn) {
+					buf := make([]byte, 512)
+					for {
+						if _, err := c.Read(buf); err != nil {
+							break
+						}
+					}
+					c.Close()
+				}(c)
 			}
 		}()
-		closers = append(closers, func() {
-			lis.Close()
-			mu.Lock()
-			for _, c := range conns {
-				c.Close()
-			}
-			mu.Unlock()
-		})
+		closers = append(closers, func() { lis.Close() })
 	}
 	if len(out) != 2 {
 		t.Fatalf("cannot reserve addresses of dead replicas: %v", out)
